@@ -170,6 +170,9 @@ def s_programs(pp, depth):
         # sub-micromole amounts (legitimate data under every storage unit: thousands of resolutions even for 'mol')
         alphabets.T('A', ['P', "(2, 1)"], '2 uL'), {'op': 'remove', 'obj': ['P', "(2, 1)"], 'what': 'nacl'},
         {'op': 'remove', 'obj': 'P', 'what': 'SOLID'}, alphabets.T('A', 'B', '3 uL'), {'op': 'remove', 'obj': 'B', 'what': 'nacl'}]
+    # no exact ties: 'A -> B 1 mL' followed by two 'B -> A 0.5 mL' empties B exactly, and whether the second draw is still
+    # 'not more than B holds' is decided by the last stored digit, which legitimately depends on the storage unit
+    voc = [dict(a, q='0.45 mL') if a == alphabets.T('B', 'A', '0.5 mL') else a for a in voc]
     _G.update(pp=pp, voc=voc)
     # all programs incl. failing ones: the enumeration itself must not depend on the configuration, so it is the plain
     # product of the vocabulary restricted by enabledness
@@ -242,7 +245,7 @@ def worker(arg):
     return out
 
 
-def compare(cfg, base, other):
+def compare(cfg, base, other, arg=None):
     viols = []
     loose = cfg.get('internal_precision', 10) < 10     # 'within rounding': a coarser precision is compared coarsely
     nums = 0
@@ -250,7 +253,7 @@ def compare(cfg, base, other):
     for key in base:
         if key not in other:
             viols.append(V(f"config | config-dependent | scenario-missing,{key.split('/')[0]}", f"{key} missing under {cfg}",
-                           {'cfg': cfg, 'key': key}))
+                           {'cfg': cfg, 'key': key, 'arg': arg}))
             continue
         (d0, n0), (d1, n1) = base[key], other[key]
         fam = key.split('/')[0]
@@ -259,11 +262,11 @@ def compare(cfg, base, other):
         if d0 != d1:
             viols.append(V(f"config | config-dependent | decision,{fam}",
                            f"under {cfg} the scenario [{key}] is {d1}, under the shipped configuration it is {d0}",
-                           {'cfg': cfg, 'key': key}, d0, d1))
+                           {'cfg': cfg, 'key': key, 'arg': arg}, d0, d1))
             continue
         if len(n0) != len(n1):
             viols.append(V(f"config | config-dependent | shape,{fam}", f"[{key}] returns {len(n1)} numbers under {cfg}, {len(n0)} "
-                           f"under the shipped configuration", {'cfg': cfg, 'key': key}))
+                           f"under the shipped configuration", {'cfg': cfg, 'key': key, 'arg': arg}))
             continue
         for j, (a, b) in enumerate(zip(n0, n1)):
             nums += 1
@@ -274,13 +277,13 @@ def compare(cfg, base, other):
                 if a != b:
                     viols.append(V(f"config | config-dependent | answer-kind,{fam}",
                                    f"[{key}] answer #{j} is {b!r} under {cfg}, {a!r} under the shipped configuration",
-                                   {'cfg': cfg, 'key': key}, a, b))
+                                   {'cfg': cfg, 'key': key, 'arg': arg}, a, b))
                     break
                 continue
             if abs(a - b) > (2e-2 if loose else 1e-4) * max(abs(a), abs(b)) + (1.01 if fam == 'program' else 2e-3):
                 viols.append(V(f"config | config-dependent | value,{fam}",
                                f"[{key}] answer #{j} is {b!r} under {cfg}, {a!r} under the shipped configuration",
-                               {'cfg': cfg, 'key': key}, a, b))
+                               {'cfg': cfg, 'key': key, 'arg': arg}, a, b))
                 break
     return viols, nums
 
@@ -319,7 +322,7 @@ def run(col):
             col.add([V(f"config | config-dependent | crashes,{'unprefixed' if 'L' in cfg.values() or 'mol' in cfg.values() else 'prefixed'}",
                        f"the scenario set cannot even run under {cfg}: {str(other)[-400:]}", {'cfg': cfg, 'key': None})])
             continue
-        vs, nums = compare(cfg, base, other)
+        vs, nums = compare(cfg, base, other, arg)
         col.add(vs)
         total_nums += nums
         col.cov.setdefault('configs', []).append({'config': cfg, 'scenarios': len(other), 'numbers_compared': nums,
@@ -335,10 +338,11 @@ def run(col):
 
 
 def replay(case):
-    base = sub.run_in_config('pmc.checks.C18', 'worker', BASE, {'depth': 2, 'stride': 7})
+    arg = case.get('arg') or {'depth': 2, 'stride': 7}
+    base = sub.run_in_config('pmc.checks.C18', 'worker', BASE, arg)
     try:
-        other = sub.run_in_config('pmc.checks.C18', 'worker', case['cfg'], {'depth': 2, 'stride': 7})
+        other = sub.run_in_config('pmc.checks.C18', 'worker', case['cfg'], arg)
     except env.InternalError as e:
         return [V(f"config | config-dependent | crashes,{'unprefixed' if 'L' in case['cfg'].values() or 'mol' in case['cfg'].values() else 'prefixed'}",
                   str(e)[-300:], case)]
-    return compare(case['cfg'], base, other)[0]
+    return compare(case['cfg'], base, other, arg)[0]
